@@ -29,6 +29,8 @@ def handleC57 (c : Case) : Verdict :=
   | some ids, some p, some r =>
     let kind := r.getD 1 ""
     if kind == "panic" then .specfalse "C57:panic" s!"prefix={hex p} msg={r.getD 2 "-"}" else
+    -- `FindSnapshot` resolves a full-length ID without listing (no call of Find): nothing to compare
+    if c.stream == "cli" && p.length == 64 && p.all isHexAny then .agree false ["cli", "full-id-bypass"] else
     if kind == "other" then .differ "result" s!"unclassified-error {r.getD 2 "-"}" else
     let model := find hexName ids lf p
     let exp := expected hexName ids p
